@@ -218,6 +218,15 @@ def main():
                 theorems[m.group(1)] = [x for x in m.group(2).split(",") if x]
             if rc != 0 or not theorems:
                 broken.append({"obligation": "audit", "detail": out[-600:]})
+            if ctx.thorough:
+                # independent re-check of the compiled theorem modules by the toolchain's external checker
+                rc, out, dt = sh(["lake", "env", "leanchecker", *targets], cwd=LEAN, timeout=3000)
+                phases["leanchecker_s"] = round(dt, 2)
+                obligations.append("audit:leanchecker")
+                if rc == 0:
+                    discharged.append("audit:leanchecker")
+                else:
+                    broken.append({"obligation": "audit:leanchecker", "detail": out[-600:]})
     if build_ok:
         for name, axs in sorted(theorems.items()):
             ob = f"theorem:{name}"
